@@ -113,9 +113,7 @@ Lemma lf_spread_val v r : lf v = true -> spread_val v = Ok r -> lf r = true.
 Proof. destruct v; cbn; try discriminate; intros Hv E; inversion E; subst; exact Hv. Qed.
 Lemma lf_factorial rel n r : factorial_val rel n = Ok r -> lf r = true.
 Proof.
-  unfold factorial_val. destruct (_ && _); [|discriminate].
-  destruct (_ =? _)%Z; [destruct rel; [|discriminate]; intros E; now inversion E|].
-  destruct (_ <=? _)%Z; intros E; now inversion E.
+  unfold factorial_val. destruct (_ && _); [|discriminate]. intros E; now inversion E.
 Qed.
 
 (* ------------------------------------------------------------------ environments *)
